@@ -72,6 +72,20 @@ def run(ctx):
     diffs, violations, samples, known_seen = [], [], [], []
     nontrivial = set()
     per_class = {}
+    # every listed finding is replayed on its witness: it is announced only while it still reproduces
+    for k in known:
+        if k.get("kind") != "finding":
+            continue
+        cls = getattr(vs, k["class"])
+        for w in k.get("witnesses", []):
+            try:
+                a, b, c = cls(w["a"]), cls(w["b"]), cls(w["c"])
+                if triple_laws(k["class"], a, b, c) and k["text"] not in known_seen:
+                    known_seen.append(k["text"])
+            except Exception:
+                pass
+        if k["text"] not in known_seen:
+            ctx.say("note: listed finding no longer reproduces on its witness:", k["id"])
     for cls in schemes.classes():
         name = cls.__name__
         if name not in gens.GEN_BY_CLASS:
@@ -111,9 +125,7 @@ def run(ctx):
             if bad:
                 nviol += 1
                 kf = [k for k in known if k.get("class") == name and k.get("kind") == "finding"]
-                if kf and name == "MavenVersion" and not all(MAVEN_DOC.match(x.string.lower()) for x in (a, b, c)):
-                    if kf[0]["text"] not in known_seen:
-                        known_seen.append(kf[0]["text"])
+                if kf and kf[0]["text"] in known_seen and name == "MavenVersion" and not all(MAVEN_DOC.match(x.string.lower()) for x in (a, b, c)):
                     continue
                 if nviol <= 3:
                     violations.append(dict(kind="counterexample", stage="search",
